@@ -717,7 +717,7 @@ def load_corpus():
 
 
 def main():
-    chk = Check("C01", groups=["vecenv"])
+    chk = Check("C01", groups=["vecenv", "seed"])
     chk.build_props()
     quick = chk.tier == "quick"
     cases = load_corpus()
